@@ -116,6 +116,16 @@ def batches(tier, seed):
         c['_i'] = i
         cases.append(c)
     yield 'g-settings-x-encoders', cases
+    # matrix counts that are exact powers (4, 8, 9, 16, 27, 81: k open-ended sources, m targets of degree 1 give k^m) with the
+    # enumeration encoders, whose variable counts are digit counts of the last matrix index
+    pw = []
+    shapes = [(2, 2), (2, 3), (3, 2), (3, 3), (4, 2), (3, 4)] if tier != 'quick' else [(2, 2), (2, 3), (3, 2), (3, 3), (3, 4)]
+    for j, (ns, nt) in enumerate(shapes):
+        for e in range(4):
+            pw.append({'src': [['min', 0, True]] * ns, 'tgt': [['list', [1], True]] * nt, 'excl': [], 'par': None,
+                       'patterns': [{'src': [None] * ns, 'tgt': [None] * nt}], '_fam_name': 'enum%d' % e,
+                       '_fam': 0, '_imp': (j + e) % 4, '_i': 5000 + 4 * j + e})
+    yield 'power-counts-x-enumeration-encoders', pw
 
 
 def _mk_manager(settings, fam, imp):
@@ -134,6 +144,8 @@ def run_case(case):
     rng = rng_for(case.get('_i', 0), 'C10case')
     fams = _registry()
     fam = fams[case['_fam'] % len(fams)]
+    if case.get('_fam_name'):
+        fam = [f_ for f_ in fams if f_[0] == case['_fam_name']][0]
     if case.get('_fam_class'):
         for f_ in fams:
             if f_[0].startswith('pattern') and type(f_[1](f_[2][0][1]())).__name__ == case['_fam_class']:
@@ -265,8 +277,6 @@ def match_known(case, fail, known):
         if k.get('id') == 'K18' and fail.get('clause') == 'decode-raises:ValueError' and 'closest' in (fail.get('detail') or '') and 'broadcast' in (fail.get('detail') or ''):
             return k
         if k.get('id') == 'K5' and (fail.get('clause') or '').startswith('manager-construction-raises:RuntimeError') and 'at least 2 options' in (fail.get('detail') or ''):
-            return k
-        if k.get('id') == 'K20' and (fail.get('clause') or '').startswith('manager-construction-raises:IndexError') and 'enum' in (fail.get('detail') or '').split(' ')[0]:
             return k
         if k.get('id') == 'K21' and fail.get('clause') == 'decoded-matrix-invalid' and ' delta ' in (fail.get('detail') or '') and 'eager' in (fail.get('detail') or '').split(' ')[0]:
             return k
